@@ -19,7 +19,7 @@ func init() {
 			"(R4) on the terminating path unsubscribe-all, registry removal, one OnKilled to every watcher and to the parent, ActorKilledEvent and scheduler clear each happen exactly once, and none of the first five is reachable on the restart path; the registry removal precedes every termination notice; " +
 			"(R5) ActorOf refuses when the parent is killed and kills the new child when the parent is killing; (R6) a child's death is recorded before the killed gate is evaluated. " +
 			"(R10) the handler that records watchers stores the sender on every path, except on the edge where the sender is the parent (notified separately), where the same key is already recorded, or after telling the sender directly; " +
-			"(R9 = C20.R1) the scheduler-cleanup step deletes every recorded job, the loop is never left early. NOT decided: cross-actor ordering of termination reports at run time, concurrent kills racing spawns.",
+			"(R9 = C20.R1) the scheduler-cleanup step deletes every recorded job, the loop is never left early. (R6, addition) inside the child-death step the dead child's table entry is removed before the user's handler for that death runs (a same-name re-spawn in the handler must not be deleted afterwards). NOT decided: cross-actor ordering of termination reports at run time, concurrent kills racing spawns.",
 		Assumptions: []string{"the kill chain steps are exactly the functions appended in the context's kill-chain builder (chain idiom)"},
 		Rules: []Rule{
 			{ID: "C06.R1", Min: 5, Desc: "one-shot kill entry; state writers", Fn: c06OneShot},
@@ -420,6 +420,10 @@ func c06Cleanup(p *Program, r *Report) {
 		r.Check(good, "self OnKilled names the terminating actor", lc.PrepareSelf.Pos(), "OnKilled.Ref of the prepared message is the context's own ref")
 	}
 	// scheduler clear: on termination and on restart
+	if lc.SchedCleanup == nil {
+		r.Violate("scheduler cleared by the kill chain", lc.OnKilledFn.Pos(), "no step of the kill chain clears the actor's scheduler: jobs armed by the dying incarnation (also from its OnKill / OnKilled handlers) keep firing after it is gone")
+		return
+	}
 	sg := p.ig(lc.SchedCleanup)
 	clear := nodesWhere(sg, func(in ssa.Instruction) bool {
 		c := callOf(in)
@@ -521,6 +525,47 @@ func c06ChainOrder(p *Program, r *Report) {
 	}
 	a, b := lc.Chain.indexOf(lc.ChildDeath), lc.Chain.indexOf(lc.MarkKilled)
 	r.Check(a >= 0 && b >= 0 && a < b, "child death precedes the killed gate", lc.OnKilledFn.Pos(), fmt.Sprintf("kill chain order: child-table delete is step %d, killed gate is step %d", a, b))
+	// inside the child-death step: the dead child's entry is gone before the user's handler for that death runs. The table is
+	// keyed by path: a handler that re-spawns the child under the same name inserts a new entry, and a delete that comes
+	// afterwards removes the live child's entry — the kill fan-out never reaches it and the parent is reported terminated first.
+	if lc.ChildDeath == nil || lc.ExecRecover == nil {
+		return
+	}
+	g := p.igxSkip(lc.ChildDeath, map[*ssa.Function]bool{lc.ExecRecover: true})
+	children := p.childrenField(lc)
+	dels := nodesWhere(g, func(in ssa.Instruction) bool {
+		if cc, ok := in.(*ssa.Call); ok {
+			if bi, isB := cc.Call.Value.(*ssa.Builtin); isB && bi.Name() == "delete" && len(cc.Call.Args) == 2 {
+				if f, _ := fieldLoad(strip(cc.Call.Args[0])); f == children {
+					return true
+				}
+			}
+			// through a helper of the context that deletes on every path
+			if y := cc.Call.StaticCallee(); y != nil && p.inModule(y) && g.Inlined[cc] == nil {
+				return p.mustDo(y, func(in2 ssa.Instruction) bool {
+					c2, ok2 := in2.(*ssa.Call)
+					if !ok2 {
+						return false
+					}
+					bi, isB := c2.Call.Value.(*ssa.Builtin)
+					if !isB || bi.Name() != "delete" || len(c2.Call.Args) != 2 {
+						return false
+					}
+					f, _ := fieldLoad(strip(c2.Call.Args[0]))
+					return f == children
+				}, 0)
+			}
+		}
+		return false
+	})
+	runs := nodesWhere(g, func(in ssa.Instruction) bool { c := callOf(in); return c != nil && c.StaticCallee() == lc.ExecRecover })
+	ok := len(dels) > 0
+	for rn := range runs {
+		if !g.DominatedByNodes(rn, dels) {
+			ok = false
+		}
+	}
+	r.Check(ok, "child entry removed before the death handler runs", firstPos(g, dels), "in the child-death step every run of the user's behaviour is dominated by the removal of the dead child's entry from the child table")
 }
 
 // c06WatchRegisters: "every actor watching it receives exactly one OnKilled" needs every watch request to end up in the table
